@@ -46,6 +46,12 @@ def check(run):
     rejects = qobs.judge(run, cases)
     c01.report(run, "C05", cases, meta, rejects, "c05")
     rank_regime(run, rng, 6 if quick else 60, 12 if quick else 16)
+    # positional queries (phrases with slop, span queries) over lists where the conjunction underneath holds
+    # documents - and whole blocks - without a matching span: a limited search skips by quality *inside* the span
+    # matcher
+    rank_regime(run, rng, 10 if quick else 60, 8 if quick else 12, check="c05-rank-spans", blocklimits=(1, 2, 3, 4),
+                docgen=lambda r, n: (c12.span_docs if r.random() < 0.7 else c12.stepped_docs)(r, n),
+                qgen=c12.stepped_span_query, plangen=c12.stepped_plan)
     # the collector itself: design model (Collector.tla) and step-by-step validation of real collections
     from harness import coltrace, tlc
     for cfg in ("CollectorMC.cfg", "CollectorMC_collapse.cfg"):
@@ -91,19 +97,21 @@ def _intern(lists):
     return [[[int(d), ranks[float(sc)]] for d, sc in lst] for lst in lists]
 
 
-def rank_regime(run, rng, nworlds, nqueries):
+def rank_regime(run, rng, nworlds, nqueries, docgen=None, qgen=None, plangen=None, check="c05-rank",
+                blocklimits=(1, 2, 3, None)):
     """Every weighting model (shipped ones, Multi/Function weightings, final() hooks): search(limit=k) is the
     prefix of the code's own search(limit=None), which lists exactly QuerySem's matching documents best first."""
     cases, meta = [], []
     for wi in range(nworlds):
         n = rng.randrange(8, 24)
-        adocs = {"k%d" % i: world.rand_doc(rng, boosts=(wi % 2 == 1)) for i in range(n)}
-        plan = world.rand_plan(rng, adocs.keys())
-        wcfg = {"storage": "ram", "blocklimit": rng.choice([1, 2, 3, None])}
+        adocs = docgen(rng, n) if docgen else {"k%d" % i: world.rand_doc(rng, boosts=(wi % 2 == 1)) for i in range(n)}
+        plan = plangen(rng, adocs) if plangen else world.rand_plan(rng, adocs.keys())
+        wcfg = {"storage": "ram", "blocklimit": rng.choice(list(blocklimits))}
         w = world.World(adocs, plan, **wcfg)
         try:
             idx = None
-            queries = [world.rand_query(rng, rng.randrange(0, 3), scored_only=True, ops=NOFUZZY) for _ in range(nqueries)]
+            queries = [qgen(rng) if qgen else world.rand_query(rng, rng.randrange(0, 3), scored_only=True, ops=NOFUZZY)
+                       for _ in range(nqueries)]
             qobs_by_q = [{"q": aq, "obs": []} for aq in queries]
             for wname, wobj in rng.sample(rank_weightings(), 4):
                 with w.ix.searcher(weighting=wobj) as s:
@@ -145,7 +153,7 @@ def rank_regime(run, rng, nworlds, nqueries):
         if o["kind"] == "topprefix" and "alt" in o and o["alt"] == o["full"][:o["k"]]:
             extra[(ci, qi, oi)] = "wrapping-replace-unscaled"
     c01.EXTRA_CLASSES = extra
-    c01.report(run, "C05", cases, meta, rejects, "c05-rank")
+    c01.report(run, "C05", cases, meta, rejects, check)
     c01.EXTRA_CLASSES = {}
 
 
